@@ -249,8 +249,11 @@ def check(prop, tier, seed, replay=None):
     nviol, notes, known, replays = report(prop, parts, binary, wd, findings)
     ncorrupt = selftest_steps(binary, parts[0]["histories"], wd)
     if prop == "C19":
+        lv, lextra = lin_part(prop, tier, seed, wd, binary)
+        nviol += lv
         rv, extra = race_part(prop, tier, seed, wd, findings)
         nviol += rv
+        extra.update(lextra)
 
     evals = sum(p["rep"]["lines"] for p in parts)
     nsched = sum(len(p["histories"]) for p in parts)
@@ -276,6 +279,73 @@ def check(prop, tier, seed, replay=None):
     shutil.rmtree(wd, ignore_errors=True)
     log(f"[done] {prop} {tier}: violations={nviol} wall={time.time()-t0:.1f}s")
     return 1 if nviol else 0
+
+
+def lin_validate(trace_file, wd, tag):
+    """TLC looks for a linearization of every recorded history (StoreLin.tla); returns (reached, lines, stuck event)."""
+    sub = os.path.join(wd, "lin_" + tag)
+    os.makedirs(sub, exist_ok=True)
+    rep = os.path.join(sub, "report.json")
+    cfg = "SPECIFICATION LSpec\nCONSTRAINT HighWater\nPOSTCONDITION Report\nCHECK_DEADLOCK FALSE\n"
+    rc, out = tlc(sub, "StoreLin", cfg, ["-workers", "1"], env={"VERIF_TRACE": trace_file, "VERIF_REPORT": rep}, heap="6g", timeout=3000, cfg_name="lin.cfg")
+    if not os.path.exists(rep) or "No error has been found" not in out:
+        tail = "\n".join(l for l in out.splitlines() if not l.startswith(("Linting", "Semantic", "Parsing")))[-4000:]
+        raise Indeterminate("linearizability validation did not complete:\n" + tail)
+    r = json.load(open(rep))
+    m = re.search(r"(\d+) states generated, (\d+) distinct states found", out)
+    r["tlc_states"] = int(m.group(2)) if m else 0
+    shutil.rmtree(sub, ignore_errors=True)
+    return r
+
+
+def lin_part(prop, tier, seed, wd, binary, replay_scn=None):
+    """C19 'every individual store operation takes effect atomically': free-running goroutines on the reference
+    store, call/return events ordered by an atomic counter, TLC searches a linearization (StoreLin.tla)."""
+    n = "1500" if tier == Q else "30000"
+    tf = os.path.join(wd, "lin.trace.ndjson")
+    p = run_harness(binary, "TestLin", {"VERIF_LIN_OUT": tf, "VERIF_N": n, "VERIF_SEED": str(seed)}, timeout=3000)
+    out = p.stdout + p.stderr
+    st = re.search(r"LIN-STATS (\{.*\})", out)
+    if not st or not os.path.exists(tf):
+        raise Indeterminate("linearizability driver did not run:\n" + out[-3000:])
+    stats = json.loads(st.group(1))
+    nviol, bad_scn = 0, []
+    for dl in sorted(set(re.findall(r"LIN-DEADLOCK scenario=(\S+)", out))):
+        path = write_replay(prop, "lin_deadlock_" + dl, {"property": prop, "kind": "lin", "scenario": dl, "what": "store calls did not return within 10 s (deadlock)"})
+        log(f"VIOLATION-DETAIL [lin/{dl}/deadlock] concurrent store calls of scenario {dl} did not return (lock-order deadlock)")
+        print(f"VIOLATION property={prop} replay={path}")
+        nviol += 1
+    lines = [json.loads(x) for x in open(tf)]
+    states = 0
+    for attempt in range(12):
+        cur = os.path.join(wd, f"lin.cur{attempt}.ndjson")
+        with open(cur, "w") as f:
+            for e in lines:
+                f.write(json.dumps(e) + "\n")
+        r = lin_validate(cur, wd, str(attempt))
+        states += r["tlc_states"]
+        if r["reached"] > r["lines"]:
+            break
+        h = r["stuck"]["h"]
+        hist = [e for e in lines if e["h"] == h]
+        scn = hist[0]["scn"]
+        bad_scn.append(scn)
+        path = write_replay(prop, "lin_" + hashlib.sha1(json.dumps(hist).encode()).hexdigest()[:10],
+                            {"property": prop, "kind": "lin", "scenario": scn, "history": hist, "stuck_at": r["stuck"],
+                             "what": "no order of the critical sections of these concurrent store calls, each between its call and its return, explains the logged results"})
+        calls = "; ".join(f"p{e['p']} {e['m']}({e['k']},{e['r']})" if e["ev"] == "call" else f"p{e['p']} -> {e['res']}" for e in hist if e["ev"] != "reset")
+        log(f"VIOLATION-DETAIL [lin/{scn}] not linearizable: {calls[:600]}")
+        print(f"VIOLATION property={prop} replay={path}")
+        nviol += 1
+        lines = [e for e in lines if e["scn"] != scn]     # one report per scenario; keep validating the others
+        if not lines:
+            break
+    else:
+        raise Indeterminate("linearizability validation: too many failing scenarios")
+    log(f"[lin] {stats['trials']} free-running trials of {len(stats['per_scenario'])} store scenarios, {stats['distinct_histories']} distinct histories, "
+        f"TLC searched {states} states, non-linearizable scenarios: {bad_scn or 'none'}")
+    return nviol, {"store_linearizability": dict(stats, tlc_states=states, non_linearizable_scenarios=bad_scn,
+                                                 method="free-running goroutines on storage.MemoryStore; call/return events ordered by an atomic counter; StoreLin.tla (critical sections of Store.tla operators) searched by TLC for a linearization")}
 
 
 def race_part(prop, tier, seed, wd, findings, only_report=False):
